@@ -293,6 +293,8 @@ class MQTTProtocol(MQTTBaseProtocol):
         # so:  response.msgId == windowPublish[self.addr][0].msgId
         try:
              request = self.factory.windowPublish[self.addr][response.msgId]
+             if request.qos != 1:   # a QoS 2 exchange is not completed by a PUBACK
+                raise KeyError(response.msgId)
         except KeyError as e:
             log.debug("<== {packet:7} (id={response.msgId:04x}) already handled", packet="PUBACK", response=response)
         else:
@@ -312,6 +314,8 @@ class MQTTProtocol(MQTTBaseProtocol):
         # so:  response.msgId == windowPublish[self.addr][0].msgId
         try:
             request = self.factory.windowPublish[self.addr][response.msgId]
+            if request.qos != 2:    # a QoS 1 exchange has no PUBREC
+                raise KeyError(response.msgId)
         except KeyError as e:
             log.debug("<== {packet:7} (id={response.msgId:04x}) already handled", packet="PUBREC", response=response)
         else:
